@@ -101,7 +101,10 @@ def main(tier, seed):
     strs_probe(chk, seed, stats)
     prods = api.productions(results)
     gaps = api.quota_gaps(prods, REQUIRED)
-    chk.evaluations = calls
+    import c02_special
+    sp = c02_special.special_leg(chk, tier, seed)
+    stats.update(sp)
+    chk.evaluations = calls + sp["special_operator_checks"]
     chk.distinct = sigs
     chk.rule = ("seeded grammar-generated bridge modules compiled with the real proc macro; C++ driver against freshly generated .hpp files, built twice "
                 "(g++ -std=c++17 and -std=c++20, ASan+UBSan), both runs must print the event log predicted from the script; direct &str arguments are "
